@@ -94,8 +94,13 @@ Definition target_version (es : list migration) (enabled : N) : N :=
                if negb (mig_optional (snd p)) || vhas enabled (fst p) then vset acc (fst p) else acc)
             (combine (seq 0 (length es)) es) 0%N.
 
-(* validateNoOptOut: bits of last \ target, ascending, stop at the first index beyond the
-   registry; refuse iff at least one index inside the registry was seen *)
+(* validateNoOptOut: bits of last \ target (a uint64), ascending. An index beyond the registry
+   returns the "newer, incompatible version" error at once (fix c2e766d; before it the loop just
+   stopped there); otherwise an opt-out error iff at least one index inside the registry was seen.
+   Ascending order: all in-registry indices come first, so the out-of-range error wins whenever
+   such a bit exists. *)
+Definition beyond_registry (target lastv : N) (nentries : nat) : bool :=
+  existsb (vhas (vdiff lastv target)) (seq nentries (max_migrations - nentries)).
 Definition opt_out_attempt (target lastv : N) (nentries : nat) : bool :=
   existsb (vhas (vdiff lastv target)) (seq 0 nentries).
 
@@ -172,7 +177,8 @@ Definition run_boot (es : list migration) (fuel : nat) (enabled : N) (c : clock)
   : mstate * result :=
   let target := target_version es enabled in
   let st0 := init_mstate s c in
-  if opt_out_attempt target (last s) (length es) then (st0, RRefusedOptOut)
+  if beyond_registry target (last s) (length es) then (st0, RRefusedDowngrade)
+  else if opt_out_attempt target (last s) (length es) then (st0, RRefusedOptOut)
   else if negb (vcontains target (cur s)) then (st0, RRefusedDowngrade)
   else
     let st := write (with_last target) st0 in                 (* LastTargetVersion first *)
@@ -249,8 +255,10 @@ Definition get_first (db : btdb) : first_res :=
   | _, _ => FErr
   end.
 
-(* ingestor.go: ingestBlock + validateCount. None = error. Note the "already migrated" case:
-   validateCount returns nil and the Put of the (empty) freshly built blob still happens. *)
+(* ingestor.go: ingestBlock + validateCount. None = error. The "already migrated" case
+   (no old entries, blob present): validateCount returns alreadyMigrated and ingestBlock returns
+   WITHOUT the Put, so the blob stays (fix d128c93; before it the empty freshly built blob was
+   written over it). The range delete of the old buckets happens in every case. *)
 Definition ingest_block (b : block) : option block :=
   let ftx := N.of_nat (length (b_otx b)) in
   let frc := N.of_nat (length (b_orc b)) in
@@ -259,7 +267,8 @@ Definition ingest_block (b : block) : option block :=
   let counts_ok := N.eqb ftx (b_count b) && N.eqb frc (b_count b) in
   if N.eqb ftx 0 || N.eqb frc 0 then
     match b_new b with
-    | Some _ => Some put                                   (* "skipping already migrated block" *)
+    | Some _ => Some {| b_count := b_count b; b_otx := []; b_orc := []; b_new := b_new b |}
+                                                           (* "skipping already migrated block" *)
     | None => if N.ltb 0 (b_count b) then None else if counts_ok then Some put else None
     end
   else if counts_ok then Some put else None.
